@@ -592,6 +592,25 @@ func c08GenLower(r *rand.Rand) c08Case {
 
 // ---- oracle -----------------------------------------------------------------------------------
 
+// c08ExpectedCRDs: the CRD files of a chart tree as the documentation describes them: files under
+// crds/ with a .yaml, .yml or .json extension (any case), the chart's own before those of its
+// subcharts; named <chart path>/<file name>.  Written without calling Chart.CRDObjects.
+type c08CRD struct{ Filename, Data string }
+
+func c08ExpectedCRDs(ch *chart.Chart, full string) []c08CRD {
+	var out []c08CRD
+	for _, f := range ch.Files {
+		ext := filepath.Ext(f.Name)
+		if strings.HasPrefix(f.Name, "crds/") && (strings.EqualFold(ext, ".yaml") || strings.EqualFold(ext, ".yml") || strings.EqualFold(ext, ".json")) {
+			out = append(out, c08CRD{filepath.Join(full, f.Name), string(f.Data)})
+		}
+	}
+	for _, d := range ch.Dependencies() {
+		out = append(out, c08ExpectedCRDs(d, full+"/charts/"+d.Name())...)
+	}
+	return out
+}
+
 // c08HeadFields: apiVersion and kind of a document, read with a generic decode
 func c08HeadFields(doc string) (version, kind string) {
 	var m map[string]interface{}
@@ -692,7 +711,7 @@ func c08OracleFull(c c08Case, obs c08Obs) []hx.Violation {
 		// exist.  Anything else is not expected to fail.
 		clash := false
 		if f.OutputDir && f.UseReleaseName && f.IncludeCRDs {
-			for _, crd := range c08BuildTree(c.Files, f.Extra).CRDObjects() {
+			for _, crd := range c08ExpectedCRDs(c08BuildTree(c.Files, f.Extra), c08ChartName) {
 				for _, e := range exp {
 					clash = clash || (e.place == "generic" && e.path == crd.Filename)
 				}
@@ -766,10 +785,10 @@ func c08OracleFull(c c08Case, obs c08Obs) []hx.Violation {
 		}
 	}
 	// CRDs (what Chart.CRDObjects lists), in front, verbatim, only with IncludeCRDs
-	crds := c08BuildTree(c.Files, f.Extra).CRDObjects()
+	crds := c08ExpectedCRDs(c08BuildTree(c.Files, f.Extra), c08ChartName)
 	var crdText strings.Builder
 	for _, crd := range crds {
-		fmt.Fprintf(&crdText, "---\n# Source: %s\n%s\n", crd.Filename, string(crd.File.Data))
+		fmt.Fprintf(&crdText, "---\n# Source: %s\n%s\n", crd.Filename, crd.Data)
 	}
 	// expected generic documents per source path; a v1 Secret may be replaced by the marker when hiding
 	type want struct {
@@ -798,7 +817,13 @@ func c08OracleFull(c c08Case, obs c08Obs) []hx.Violation {
 			}
 		}
 		for k, n := range wantN {
-			if gotN[k] < n {
+			if k == c08Hidden && gotN[k] != n {
+				sig := "secret-not-hidden"
+				if gotN[k] > n {
+					sig = "hidden-not-a-v1-secret"
+				}
+				bad(sig, fmt.Sprintf("%s %s: %d documents replaced by the HIDDEN marker, expected %d (the v1 Secrets)", where, p, gotN[k], n))
+			} else if gotN[k] < n {
 				bad("doc-lost", fmt.Sprintf("%s %s: document present %d times, expected %d: %.60q", where, p, gotN[k], n, k))
 			} else if gotN[k] > n {
 				bad("doc-duplicated", fmt.Sprintf("%s %s: document present %d times, expected %d: %.60q", where, p, gotN[k], n, k))
@@ -810,7 +835,7 @@ func c08OracleFull(c c08Case, obs c08Obs) []hx.Violation {
 				if c08IsPartial(p) || c08IsNotes(p) {
 					sig = "partial-or-notes-applied"
 				} else if k == c08Hidden {
-					sig = "hidden-without-flag"
+					sig = "hidden-not-a-v1-secret"
 				}
 				bad(sig, fmt.Sprintf("%s %s: a document that is not one of the template's resource documents: %.60q", where, p, k))
 			}
@@ -876,7 +901,7 @@ func c08OracleFull(c c08Case, obs c08Obs) []hx.Violation {
 			if _, ok := byFile[k]; !ok {
 				order = append(order, k)
 			}
-			byFile[k] += fmt.Sprintf("---\n# Source: %s\n%s\n", crd.Filename, string(crd.File.Data))
+			byFile[k] += fmt.Sprintf("---\n# Source: %s\n%s\n", crd.Filename, crd.Data)
 		}
 		for _, k := range order {
 			if _, isTemplate := wantG[strings.TrimPrefix(k, dir+"/")]; isTemplate {
@@ -903,7 +928,7 @@ func c08OracleFull(c c08Case, obs c08Obs) []hx.Violation {
 		if f.IncludeCRDs {
 			for _, crd := range crds {
 				if c08OutDir+"/"+crd.Filename == k {
-					text = strings.Replace(text, fmt.Sprintf("---\n# Source: %s\n%s\n", crd.Filename, string(crd.File.Data)), "", 1)
+					text = strings.Replace(text, fmt.Sprintf("---\n# Source: %s\n%s\n", crd.Filename, crd.Data), "", 1)
 				}
 			}
 		}
